@@ -13,6 +13,7 @@
 //   - the capacity each channel field is made with
 //   - the channels a goroutine started by Start closes after receiving from DoneChan
 //   - whether Connection.shutdown waits for its wait group before closing ErrorChan
+//   - the Config fields the client's state map takes its state timeouts from
 package main
 
 import (
@@ -46,6 +47,8 @@ type fileFacts struct {
 	ChanCap      map[string]int        `json:"chancap"`
 	ClosedOnDone []string              `json:"closed_on_done"`
 	Cleanup      bool                  `json:"cleanup"`
+	// Config fields a state map entry's Timeout is taken from: entry.Timeout = c.config.<field>
+	TimeoutFields []string `json:"timeout_fields"`
 }
 
 type allFacts struct {
@@ -441,6 +444,14 @@ func makeChanCap(e ast.Expr) (int, bool) {
 }
 
 func fileLevel(pf *parsedFile, typ string, ff *fileFacts) {
+	timeoutFields := map[string]bool{}
+	defer func() {
+		ff.TimeoutFields = []string{}
+		for k := range timeoutFields {
+			ff.TimeoutFields = append(ff.TimeoutFields, k)
+		}
+		sort.Strings(ff.TimeoutFields)
+	}()
 	ast.Inspect(pf.file, func(n ast.Node) bool {
 		switch x := n.(type) {
 		case *ast.KeyValueExpr:
@@ -450,6 +461,16 @@ func fileLevel(pf *parsedFile, typ string, ff *fileFacts) {
 				}
 			}
 		case *ast.AssignStmt:
+			// entry.Timeout = c.config.<Field>
+			if len(x.Lhs) == 1 && len(x.Rhs) == 1 {
+				if l, ok := x.Lhs[0].(*ast.SelectorExpr); ok && l.Sel.Name == "Timeout" {
+					if r, ok := x.Rhs[0].(*ast.SelectorExpr); ok {
+						if in, ok := r.X.(*ast.SelectorExpr); ok && in.Sel.Name == "config" {
+							timeoutFields[r.Sel.Name] = true
+						}
+					}
+				}
+			}
 			for i, r := range x.Rhs {
 				if n, ok := makeChanCap(r); ok && i < len(x.Lhs) {
 					switch l := x.Lhs[i].(type) {
